@@ -85,10 +85,12 @@ TRUSTED = {
             'ASSUMED: contract of compute_SCCs (C12, bounded); F is a container of existing set objects; get_equivalent_non_fair_formula returns a documented CTL state formula and touches no structure',
             'what is computed (fair states, fair semantics) is wrong on the pinned tree (KF-C15-1/2/3) and is decided by the bounded check against defect models; LTL and CTL* with F: bounded only'],
     'C07': ['frame obligations cover: the CTL labelling functions and CTL.modelcheck (object formula, F=None); LTL.modelcheck wrapper (given the assumed _checkE_path_formula contract); '
-            'CTLS.modelcheck, _remove_state_subformulas, _checkQuantifiedFormula (object formula, F=None): writes go to objects allocated during the call, or to the label sets of the CLONE',
+            'CTLS.modelcheck, _remove_state_subformulas, _checkQuantifiedFormula (object formula): writes go to objects allocated during the call, or to the label sets of the CLONE',
             'ASSUMED in the CTL* call graph: CTL.modelcheck called with an arbitrary formula object (cast leg) either raises TypeError or returns a new set and writes nothing older than the call; '
             'formula operations (constructors, LNot, subformulas, cast_to, printing) do not touch structures; formula objects satisfy the arity invariant (C08, bounded; KF-C08-1)',
-            'the fairness legs (F given), the text/parser legs and purity of REPEATED calls (no hidden state) are bounded only'],
+            'with fairness constraints (F = a container of existing sets): CTL.modelcheck (contract CTL.modelcheck(fair)), Kripke.label_fair_states / get_fair_states and the CTL* reduction are covered by the same frame '
+            '(writes go to the label sets of the clone); get_equivalent_non_fair_formula and cast_to are taken to return formula objects satisfying the arity invariant and to touch no structure',
+            'LTL.modelcheck with F (always TypeError, KF-C15-3), the text/parser legs and purity of REPEATED calls (no hidden state between calls) are bounded only'],
     'C19': ['safety obligations (no KeyError/IndexError/RuntimeError/AttributeError/StopIteration can leave the function) and freshness of the result cover the CTL labelling functions, '
             'CTL.modelcheck, the LTL.modelcheck wrapper and the CTL* reduction (object formula, F=None) under the assumptions listed for C07; tableau and fairness legs bounded only',
             'precondition: Python None is not a state (KF-C19-1)'],
